@@ -103,8 +103,11 @@ class Adjoint(Sub):
         at = a if case["lie_a"] else a.tensor()
         out = _bshape(case["sx"], case["sa"])
         with rec.sut("Adj/AdjT"):
-            y1 = X.Adj(at)
-            y2 = X.AdjT(at)
+            if len(case["X"]) % 2 == 0 and hasattr(pp, "Adj") and hasattr(pp, "AdjT"):     # functional forms for half of the shapes
+                y1, y2 = pp.Adj(X, at), pp.AdjT(X, at)
+                rec.label("form:function")
+            else:
+                y1, y2 = X.Adj(at), X.AdjT(at)
             L1, R1 = X @ a.Exp(), y1.Exp() @ X
             L2, R2 = a.Exp() @ X, X @ y2.Exp()
         rec.label(lt, dtype)
@@ -333,10 +336,12 @@ class Jinvp(Sub):
             dtype = draw(st.sampled_from(gen.DTYPES))
             sx, sp, _ = draw(bpair())
             tc = 3.0 if lt == "Sim3" else 1e2
-            X, rX = _items(draw, gen.group(lt, dtype, tcap=tc, slo=-1.5, shi=1.5), sx)
+            # Jl^-1 has a pole at 2 pi and Log flips branch at pi: rotations within 1e-3 of pi are only checked for finiteness, so
+            # only one quaternion kind in seven sits there (the default table spends three of seven on pi)
+            X, rX = _items(draw, gen.group(lt, dtype, tcap=tc, slo=-1.5, shi=1.5, qkinds=("angle", "angle", "angle", "rand", "rand", "v0", "ident", "pi")), sx)
             p, rp = _items(draw, gen.algebra(R.ALG_OF[lt], dtype, tcap=1e2, maxk=1, scap=4.0), sp)
             return {"ltype": lt, "dtype": dtype, "sx": sx, "sp": sp, "X": X, "p": p, "rX": rX, "rp": rp,
-                    "lie_p": draw(st.booleans())}
+                    "lie_p": draw(st.booleans()), "form": draw(st.sampled_from(("method", "function")))}
         return s()
 
     def oracle(self, case, rec):
@@ -347,8 +352,9 @@ class Jinvp(Sub):
         p = tu.lie(alt, case["p"], dtype, shape=case["sp"])
         out = _bshape(case["sx"], case["sp"])
         with rec.sut("Jinvp"):
-            y = X.Jinvp(p if case["lie_p"] else p.tensor())
-        rec.label(lt, dtype)
+            arg = p if case["lie_p"] else p.tensor()
+            y = pp.Jinvp(X, arg) if case.get("form") == "function" else X.Jinvp(arg)
+        rec.label(lt, dtype, "form:" + case.get("form", "method"))
         if not rec.check(isinstance(y, pp.LieTensor) and y.ltype == tu.LT[alt] and list(y.shape[:-1]) == out, "type:Jinvp",
                          "Jinvp returned %s lshape %s" % (getattr(y, "ltype", None), list(y.shape[:-1]))):
             return
@@ -414,12 +420,13 @@ class Jr(Sub):
         eps = tu.EPS[dtype]
         x = tu.lie("so3", case["x"], dtype, shape=case["lshape"])
         with rec.sut("Jr"):
+            fn = case["dseed"] % 2 == 1          # functional form pp.Jr(.) for every other case
             if case["group"]:
                 Xg = x.Exp()
-                J = Xg.Jr()
+                J = pp.Jr(Xg) if fn else Xg.Jr()
                 xin = tu.npy(Xg.Log()).reshape(-1, 3)
             else:
-                J = x.Jr()
+                J = pp.Jr(x) if fn else x.Jr()
                 xin = np.array(case["x"], dtype=np.float64).reshape(-1, 3)
         rec.label(dtype, "SO3.Jr" if case["group"] else "so3.Jr")
         if not rec.check(tuple(J.shape) == tuple(case["lshape"]) + (3, 3), "jr:shape", "Jr shape %s" % (tuple(J.shape),)):
@@ -429,6 +436,9 @@ class Jr(Sub):
         for i, xi in enumerate(xin):
             th = float(np.linalg.norm(xi))
             if case["group"] and np.linalg.norm(np.array(case["x"][i])) > math.pi - 1e-2:
+                # SO3.Jr(X) is Jr(Log X) and Log flips branch at pi: only finiteness is asserted there
+                rec.label("jr:group_near_pi_finite_only")
+                rec.check(bool(np.all(np.isfinite(Jn[i]))), "jr:nonfinite", "Jr(%s) = %s" % (xi.tolist(), Jn[i].tolist()))
                 continue
             reg = case["rx"][i]
             if any(v in ("zero", "tiny", "eps", "sqrteps", "pi1", "wide") for v in reg.values()) or th > 1:
